@@ -99,10 +99,23 @@ class Monitor:
         od = lp.disconnect
         W = self.case.W
 
+        def note(lp=lp):
+            if not any(x is lp for _, x in self.discs):
+                self.discs.append((W.clock.seconds(), lp))
+
         def dis(lp=lp, od=od):
-            self.discs.append((W.clock.seconds(), lp))
+            note()
             return od()
         lp.disconnect = dis
+        # the same fact seen on the simulated network: the Leader's end of this link is closed locally
+        tr = lp.transport
+        olc = tr.loseConnection
+
+        def lc(*a, **kw):
+            if not (tr.lost or tr.broken or tr.closing):      # a link the harness killed is not a "drop"
+                note()
+            return olc(*a, **kw)
+        tr.loseConnection = lc
 
 
 def drive(case, until, hold=None, stop_when=None, on_step=None, rtt=None):
